@@ -357,8 +357,9 @@ func ruleReleaseCoverage(c *Ctx, rule string) {
 				return ok && call.Call.StaticCallee() != nil && call.Call.StaticCallee().String() == "(*time.Timer).Stop" && fieldLoadOfRecv(call.Call.Args[0], f)
 			}
 			bad := ""
+			dh := w.deepHit(hit)
 			for _, r := range rets {
-				if !allPathsTo(cl, r.Block(), hit) {
+				if !allPathsTo(cl, r.Block(), dh) {
 					bad = "a path to the return at " + w.instrPos(r) + " does not stop it"
 				}
 			}
@@ -378,30 +379,83 @@ func ruleReleaseCoverage(c *Ctx, rule string) {
 				return ok && call.Call.IsInvoke() && call.Call.Method.Name() == "Close" && fieldLoadOfRecv(call.Call.Value, f)
 			}
 			bad := ""
-			for _, r := range rets {
-				if allPathsTo(cl, r.Block(), hit) {
-					continue
+			// released(fn): every return of fn (of `only` when given) is preceded on all paths
+			// by the Close — directly or in a helper for which the same holds — or is reached
+			// with the field nil / with the exclusive sibling socket non-nil
+			memo := map[*ssa.Function]int{}
+			var released func(fn *ssa.Function, only []*ssa.Return) bool
+			released = func(fn *ssa.Function, only []*ssa.Return) bool {
+				if only == nil {
+					switch memo[fn] {
+					case 1:
+						return false
+					case 2:
+						return true
+					}
+					memo[fn] = 1
 				}
-				ok := false
-				for _, fct := range w.factsAt(r) {
-					v, isNil, isNF := nilFact(fct)
-					if !isNF {
+				hitOrHelper := func(in ssa.Instruction) bool {
+					if hit(in) {
+						return true
+					}
+					call, ok := in.(*ssa.Call)
+					if !ok {
+						return false
+					}
+					h := call.Call.StaticCallee()
+					if b := w.syncCallbackBody(call); b != nil {
+						h = b
+					}
+					if h == nil || !w.IsMod[h] || len(h.Blocks) == 0 || h == fn {
+						return false
+					}
+					if h.Parent() == nil && w.singleSiteCI(h) != ssa.CallInstruction(call) {
+						return false // only helpers that belong to this teardown
+					}
+					return released(h, nil)
+				}
+				rs := only
+				if rs == nil {
+					rs = returnsOf(fn)
+				}
+				okAll := true
+				for _, r := range rs {
+					if allPathsTo(fn, r.Block(), hitOrHelper) {
 						continue
 					}
-					if isNil && fieldLoadOfRecv(v, f) {
-						ok = true // nothing to close
-					}
-					if !isNil {
-						for _, g := range sockFields {
-							if g != f && fieldLoadOfRecv(v, g) && exclusive(f, g) {
-								ok = true // the exclusive sibling is the live one
+					ok := false
+					for _, fct := range w.factsAt(r) {
+						v, isNil, isNF := nilFact(fct)
+						if !isNF {
+							continue
+						}
+						if isNil && fieldLoadOfRecv(v, f) {
+							ok = true // nothing to close
+						}
+						if !isNil {
+							for _, g := range sockFields {
+								if g != f && fieldLoadOfRecv(v, g) && exclusive(f, g) {
+									ok = true // the exclusive sibling is the live one
+								}
 							}
 						}
 					}
+					if !ok {
+						okAll = false
+						if bad == "" {
+							bad = "the return at " + w.instrPos(r) + " can be reached with this socket open and not closed"
+						}
+					}
 				}
-				if !ok {
-					bad = "the return at " + w.instrPos(r) + " can be reached with this socket open and not closed"
+				if only == nil && okAll {
+					memo[fn] = 2
 				}
+				return okAll
+			}
+			if released(cl, rets) {
+				bad = ""
+			} else if bad == "" {
+				bad = "a path past the guard leaves this socket open"
 			}
 			if bad == "" {
 				c.OK(rule, fname(cl), name, w.pos(cl.Pos()), "Close() on every path past the guard where the field can be non-nil")
@@ -439,15 +493,191 @@ func ruleCollectionRelease(c *Ctx, rule string, cl *ssa.Function, recv ssa.Value
 		}
 		return false
 	}
-	loops := w.rangeLoops(cl, isColl)
-	if len(loops) == 0 {
+	// a local snapshot built in place: append(fresh, field...) or a complete range over the
+	// field appending every element to a fresh slice
+	isLocalCopy := func(v ssa.Value) bool {
+		v = stripIface(w.resolveLoad(v))
+		fn := (*ssa.Function)(nil)
+		if in, ok := v.(ssa.Instruction); ok {
+			fn = in.Parent()
+		}
+		if fn == nil {
+			return false
+		}
+		isField := func(x ssa.Value) bool {
+			b, fl, ok := fieldLoad(stripIface(w.resolveLoad(x)))
+			return ok && fl == f && w.sameKey(b, recv)
+		}
+		fresh := func(x ssa.Value) bool {
+			switch y := stripIface(w.resolveLoad(x)).(type) {
+			case *ssa.MakeSlice:
+				return true
+			case *ssa.Const:
+				return y.Value == nil
+			case *ssa.Slice:
+				_, isAl := y.X.(*ssa.Alloc)
+				return isAl
+			}
+			return false
+		}
+		// append(fresh, field...)
+		if call, ok := v.(*ssa.Call); ok {
+			if b, isB := call.Call.Value.(*ssa.Builtin); isB && b.Name() == "append" && len(call.Call.Args) == 2 && fresh(call.Call.Args[0]) && isField(call.Call.Args[1]) {
+				return true
+			}
+		}
+		// the value a complete range over the field leaves behind: phi(fresh, append(phi, elem))
+		if phi, ok := v.(*ssa.Phi); ok {
+			for _, lp := range w.rangeLoops(fn, isField) {
+				if phi.Block() != lp.header {
+					continue
+				}
+				okInit, okStep := false, false
+				var app *ssa.Call
+				for _, e := range phi.Edges {
+					if fresh(e) {
+						okInit = true
+					}
+					if call, isC := stripIface(w.resolveLoad(e)).(*ssa.Call); isC {
+						if b, isB := call.Call.Value.(*ssa.Builtin); isB && b.Name() == "append" && len(call.Call.Args) == 2 && call.Call.Args[0] == ssa.Value(phi) {
+							for _, el := range variadicElems(call.Call.Args[1]) {
+								if lp.isElem(el) {
+									okStep, app = true, call
+								}
+							}
+						}
+					}
+				}
+				if okInit && okStep && app != nil {
+					if must, _ := mustPassBefore(lp.body, func(in ssa.Instruction) bool { return in == ssa.Instruction(app) }, func(b *ssa.BasicBlock) bool { return b == lp.header }); must {
+						return true
+					}
+				}
+			}
+		}
+		return false
+	}
+	// the loop may sit in Close itself or in a helper / sync.Once body that belongs to it;
+	// candidates: loops over the live field, over an accessor's copy, over a local copy
+	type cand struct {
+		lp   loopInfo
+		fn   *ssa.Function
+		kind string
+	}
+	var cands []cand
+	for _, bf := range w.helpersOf(cl) {
+		for _, lp := range w.rangeLoops(bf, isLocalCopy) {
+			cands = append(cands, cand{lp, bf, "local copy"})
+		}
+		accessor = nil
+		for _, lp := range w.rangeLoops(bf, isColl) {
+			k := "live"
+			if accessor != nil {
+				k = "accessor"
+			}
+			cands = append(cands, cand{lp, bf, k})
+		}
+	}
+	if len(cands) == 0 {
 		c.Bad(rule, fname(cl), name, w.pos(cl.Pos()), "Close does not iterate over "+f.Name()+": its elements' timers/connections are not released")
 		return
 	}
+	// prefer a loop whose body releases; the loop that merely copies the table is not it
+	releases := func(lp loopInfo) bool {
+		for _, rf := range resourceFields(et) {
+			found := false
+			seenB := map[*ssa.BasicBlock]bool{}
+			var walk func(b *ssa.BasicBlock)
+			walk = func(b *ssa.BasicBlock) {
+				if seenB[b] || b == lp.header {
+					return
+				}
+				seenB[b] = true
+				for _, in := range b.Instrs {
+					if call, ok := in.(*ssa.Call); ok {
+						if cal := call.Call.StaticCallee(); cal != nil && (cal.String() == "(*time.Timer).Stop" || w.IsMod[cal]) {
+							for _, a := range call.Call.Args {
+								if lp.isElem(a) {
+									found = true
+								}
+								if b2, _, ok := fieldLoad(a); ok && lp.isElem(b2) {
+									found = true
+								}
+							}
+						}
+					}
+				}
+				for _, s2 := range b.Succs {
+					walk(s2)
+				}
+			}
+			walk(lp.body)
+			_ = rf
+			if found {
+				return true
+			}
+		}
+		return false
+	}
+	chosen := cands[0]
+	for _, cd := range cands {
+		if releases(cd.lp) {
+			chosen = cd
+			break
+		}
+	}
+	loops := []loopInfo{chosen.lp}
+	loopFn := chosen.fn
+	if chosen.kind != "accessor" {
+		accessor = nil
+	}
+	// ranging over the live slice while its elements are removed in place skips entries
+	if _, isSlice := f.Type().Underlying().(*types.Slice); isSlice && chosen.kind == "live" && w.mutatedInPlace(f) {
+		c.Bad(rule, fname(loopFn), name+" snapshot", w.pos(loopFn.Pos()), "the teardown loop ranges over the live "+f.Name()+" slice while its body removes elements from it in place: entries are skipped and never released")
+		return
+	}
 	lp := loops[0]
-	// the loop is on every path to the returns
+	// the loop is on every path through the function that holds it ...
+	for _, r := range returnsOf(loopFn) {
+		if loopFn == cl {
+			break
+		}
+		if !allPathsTo(loopFn, r.Block(), func(in ssa.Instruction) bool { return in.Block() == lp.header }) {
+			c.Bad(rule, fname(loopFn), name, w.pos(loopFn.Pos()), "the teardown loop over "+f.Name()+" can be skipped on a path to the return at "+w.instrPos(r))
+			return
+		}
+	}
+	// ... and that function runs on every path of Close to its returns past the guard
+	onPath := func(in ssa.Instruction) bool { return in.Block() == lp.header }
+	if loopFn != cl {
+		var reaches func(fn *ssa.Function, depth int) func(ssa.Instruction) bool
+		reaches = func(fn *ssa.Function, depth int) func(ssa.Instruction) bool {
+			return func(in ssa.Instruction) bool {
+				call, ok := in.(*ssa.Call)
+				if !ok || depth > 4 {
+					return false
+				}
+				h := call.Call.StaticCallee()
+				if b := w.syncCallbackBody(call); b != nil {
+					h = b
+				}
+				if h == nil || !w.IsMod[h] || len(h.Blocks) == 0 {
+					return false
+				}
+				if h == loopFn {
+					return true
+				}
+				if h.Parent() == nil && w.singleSiteCI(h) != ssa.CallInstruction(call) {
+					return false
+				}
+				ok2, _ := mustPassBefore(h.Blocks[0], reaches(h, depth+1), func(*ssa.BasicBlock) bool { return false })
+				return ok2
+			}
+		}
+		onPath = reaches(cl, 0)
+	}
 	for _, r := range rets {
-		if !allPathsTo(cl, r.Block(), func(in ssa.Instruction) bool { return in.Block() == lp.header }) {
+		if !allPathsTo(cl, r.Block(), onPath) {
 			c.Bad(rule, fname(cl), name, w.pos(cl.Pos()), "the teardown loop over "+f.Name()+" can be skipped on a path to the return at "+w.instrPos(r))
 			return
 		}
@@ -873,7 +1103,32 @@ func ruleCloseUnderLock(c *Ctx, rule string) {
 		}
 	})
 	if n == 0 {
-		c.Bad(rule, fname(cl), "close(a.closed)", w.pos(cl.Pos()), "Close no longer closes a.closed: anchor gone")
+		// the idempotence guard may be a sync.Once instead of a closed-channel: then the whole
+		// teardown (located by the stop of the allocation's own timer) runs inside once.Do
+		underOnce := false
+		lt := w.Field("allocation", "Allocation", "lifetimeTimer")
+		w.eachInstr(cl, func(in ssa.Instruction) {
+			call, ok := in.(*ssa.Call)
+			if !ok {
+				return
+			}
+			body := w.syncCallbackBody(call)
+			if body == nil {
+				return
+			}
+			w.eachInstrDeep(body, func(in2 ssa.Instruction) {
+				if c2, ok := in2.(*ssa.Call); ok && c2.Call.StaticCallee() != nil && c2.Call.StaticCallee().String() == "(*time.Timer).Stop" {
+					if _, f, isL := fieldLoad(c2.Call.Args[0]); isL && f == lt {
+						underOnce = true
+					}
+				}
+			})
+		})
+		if underOnce {
+			c.OK(rule, fname(cl), "close(a.closed)", w.pos(cl.Pos()), "the teardown runs inside sync.Once.Do: a second Close does nothing")
+		} else {
+			c.Bad(rule, fname(cl), "close(a.closed)", w.pos(cl.Pos()), "Close no longer closes a.closed: anchor gone")
+		}
 	}
 }
 
